@@ -1117,7 +1117,7 @@ class Merge(Op):
         return {
             "on": on,
             "how": draw(s.sampled_from(["inner", "left", "right", "outer", "inner", "left"])),
-            "suffixes": draw(s.sampled_from([None, None, ["_l", "_r"], ["", "_r"]])),
+            "suffixes": draw(s.sampled_from([None, None, ["_l", "_r"], ["", "_r"], ["_l", ""]])),
             "broadcast": draw(s.sampled_from([None, None, True, False])),
             "shuffle_method": draw(s.sampled_from([None, None, "tasks"])),
         }
